@@ -83,7 +83,7 @@ def run_impl(inputs, contigs, by_barcodes, rel, mode="stream"):
 
 def mode_applies(mode, inputs, contigs):
     """A MafRecord has one alternate allele (Tumor_Seq_Allele2): real records stand only for items with exactly one."""
-    if mode == "records":
+    if mode in ("records", "readers"):
         return all(len(x.alts) == 1 for inp in inputs for x in inp)
     return c11.mode_applies(mode, contigs)
 
